@@ -692,7 +692,7 @@ class OpRunner:
                 while fr is not None:
                     depth += 1
                     fr = fr.f_back
-                sys.setrecursionlimit(depth + int(op["reclimit"]))
+                sys.setrecursionlimit(depth + int(op["reclimit"]) + int(self.w.spec.get("recursion_delta", 0)))
             try:
                 getattr(self, "op_" + kind)(op, res)
             finally:
@@ -910,9 +910,22 @@ class OpRunner:
         tag = op.get("tag", "t%d" % a.idx)
         vis = self.obj("V:" + op.get("visitor", "Collect") + ":" + tag, lambda: cls(tag))
         start = len(vis.log)
+
+        def walk():
+            vis.visit(ast)
+            extra = ""
+            if op.get("show"):
+                # the other read-only views of a tree: show(), repr(), children(), iteration
+                import io as _io
+
+                buf = _io.StringIO()
+                ast.show(buf=buf, attrnames=True, nodenames=True, showcoord=True)
+                extra = buf.getvalue() + repr(ast) + repr([(n, type(c).__name__) for n, c in ast.children()]) + repr([type(c).__name__ for c in ast])
+            return extra
+
         try:
-            self.call(vis.visit, ast)
-            res["out"] = _outcome_ok("ok", repr(vis.log[start:]))
+            extra = self.call(walk)
+            res["out"] = _outcome_ok("ok", repr(vis.log[start:]) + extra)
         except Exception as e:
             res["out"] = _outcome_exc(e)
 
@@ -1246,7 +1259,7 @@ def _pool_threads(n):
 
 def execute(pyc, spec, keep_full=True):
     """Execute a run spec against the pristine module set `pyc`."""
-    sys.setrecursionlimit(int(spec.get("recursion_limit", 1000)))
+    sys.setrecursionlimit(int(spec.get("recursion_limit", 1000)) + int(spec.get("recursion_delta", 0)))
     world = World(pyc, spec)
     threads = _pool_threads(len(world.actors))
     simsync.CURRENT = world
